@@ -178,6 +178,13 @@ fn kernighan_lin_2_impl<T>(
         new_cut_size = best_cut;
 
         if new_cut_size >= cut_size {
+            // no prefix of this pass improves on the partition the pass
+            // started from: undo the swaps that were kept above as well
+            for save in saves[..best_pos + 1].iter() {
+                let ((idx_1, _), (idx_2, _)) = *save;
+                initial_partition.swap(idx_1, idx_2);
+            }
+            new_cut_size = cut_size;
             break;
         }
     }
